@@ -120,7 +120,7 @@ def unit_sum_species(twin=False):
             r.add("species.exchange_and_surface_species_add_nothing", DISCHARGED if ok else FAILED, "symex", 0, "", kind="frame")
             continue
         if B.z3_prove(hy, tm.not_(sorbed))[0] != "proved":
-            r.add("species.case_decided", FAILED, "z3", 0, "a path mixes sorbed and aqueous species: %r" % (s.pc,)); continue
+            r.add("species.case_decided", UNDECIDED, "z3", 0, "a path mixes sorbed and aqueous species: %r" % (s.pc,)); continue
         nrun += 1
         REACTION = A.enum_values_compiled("global_structures.h", ["REACTION"])["REACTION"] if False else hdr.define_value(GS, "REACTION")
         sp_ev = [e.result for e in s.events if e.name.endswith("Get_surface_ptr")]
@@ -132,7 +132,7 @@ def unit_sum_species(twin=False):
             elif B.z3_prove(hy, tm.not_(C))[0] == "proved":
                 corr = False
             else:
-                r.add("species.surface_water_case_decided", FAILED, "z3", 0, "path does not decide: %r" % (s.pc,)); continue
+                r.add("species.surface_water_case_decided", UNDECIDED, "z3", 0, "path does not decide: %r" % (s.pc,)); continue
         else:
             corr = False
         for field, coef in sums:
